@@ -88,7 +88,15 @@ def run(ctx: Context) -> None:
     ctx.rule('R03.4', "a variable on no grid is refused: get_grid_kind raises on its fall-through exit and ravel consults it; move_dimensions_to_end raises for absent dimensions", floor=4)
     ctx.rule('R03.5', "the linear dimension is chosen by axis, else by name, else the last dimension", floor=1)
     ctx.rule('R03.6', "an automatically chosen dimension name is never one that already exists", floor=2)
+    ctx.rule('R03.7', "no other refusal: wind_dimension, ravel_dimensions and splice_tuple never raise on their own; move_dimensions_to_end and get_grid_kind raise only as stated (winding arbitrary linear data always succeeds)", floor=5)
     ctx.assume("numpy reshape in C order merges/splits trailing axes row-major; xarray transpose only permutes axes")
+
+    for q, allowed in ((f"{UTILS}.wind_dimension", 0), (f"{UTILS}.ravel_dimensions", 0), (f"{UTILS}.splice_tuple", 0),
+                       (f"{UTILS}.move_dimensions_to_end", 1), (f"{DIMCONV}.get_grid_kind", 1), (f"{DIMCONV}.ravel", 0), (f"{DIMCONV}.wind", 0)):
+        f = ctx.func(q)
+        rs = [n for n in ast.walk(f.node) if isinstance(n, ast.Raise)]
+        ctx.check('R03.7', len(rs) <= allowed, f"{f.short} has at most {allowed} refusal(s)", f, rs[allowed] if len(rs) > allowed else f.node,
+                  construct=f"{f.short}: {len(rs)} raise statement(s): {[norm_text(r)[:60] for r in rs]}")
 
     # ------------------------------------------------------------------ utils.move_dimensions_to_end
     mv = ctx.func(f"{UTILS}.move_dimensions_to_end")
@@ -455,6 +463,7 @@ VARIANTS = [
     V('C03', 'missing-dims-not-refused', _U, "    if not current_dims.issuperset(dimensions):\n        missing = sorted(set(dimensions) - set(current_dims), key=str)\n        raise ValueError(f\"DataArray does not contain dimensions {missing!r}\")\n", "", 'R03.4'),
     V('C03', 'unused-dimension-unchecked', _U, "    if prefix not in existing_dims:\n        return prefix\n", "    if prefix:\n        return prefix\n", 'R03.6'),
     V('C03', 'linear-name-dropped', _B, "            data_array, list(dimensions),\n            linear_dimension=linear_dimension)", "            data_array, list(dimensions))", 'R03.1'),
+    V('C03', 'wind-refuses-existing-names', _U, "    dimension_index = data_array.dims.index(linear_dimension)", "    if set(data_array.dims).intersection(dimensions):\n        raise ValueError('DataArray already contains dimensions')\n    dimension_index = data_array.dims.index(linear_dimension)", 'R03.7'),
     # benign
     V('C03', 'benign-tuple-dims', _B, "            data_array, list(dimensions),\n            linear_dimension=linear_dimension)", "            data_array, list(tuple(dimensions)),\n            linear_dimension=linear_dimension)", None),
     V('C03', 'benign-splice-form', _U, "    return t[:index] + tuple(values) + t[index:][1:]", "    return t[:index] + tuple(values) + t[index + 1:]", None),
